@@ -3,6 +3,7 @@ package props
 import (
 	"fmt"
 	"go/token"
+	"go/types"
 	"math/big"
 	"sort"
 	"strings"
@@ -106,7 +107,7 @@ func c14NonNeg(fn *ssa.Function, v ssa.Value) bool {
 }
 
 // c14Origins classifies where a *subConn value can come from.
-func c14Origins(v ssa.Value, depth int, seen map[ssa.Value]bool, out map[string]int) {
+func c14Origins(tb *c14Tables, v ssa.Value, depth int, seen map[ssa.Value]bool, out map[string]int) {
 	v = core.Forward(v)
 	if seen[v] {
 		return
@@ -115,7 +116,7 @@ func c14Origins(v ssa.Value, depth int, seen map[ssa.Value]bool, out map[string]
 	switch x := v.(type) {
 	case *ssa.Phi:
 		for _, e := range x.Edges {
-			c14Origins(e, depth, seen, out)
+			c14Origins(tb, e, depth, seen, out)
 		}
 		return
 	case *ssa.Const:
@@ -129,29 +130,55 @@ func c14Origins(v ssa.Value, depth int, seen map[ssa.Value]bool, out map[string]
 			return
 		}
 	case *ssa.Call:
-		callee := x.Call.StaticCallee()
-		if callee != nil && callee.Blocks != nil && depth < 3 && callee.Pkg != nil && strings.HasPrefix(callee.Pkg.Pkg.Path(), core.Mod+"/") {
-			for _, ret := range core.Returns(callee) {
-				if len(ret.Results) != 1 {
-					out["other:"+core.Describe(v)]++
-					continue
-				}
-				for _, l := range gxPhiLeaves(core.Result(ret, 0)) {
-					if pa, ok := l.(*ssa.Parameter); ok {
-						for i, cp := range callee.Params {
-							if cp == pa && i < len(x.Call.Args) {
-								c14Origins(x.Call.Args[i], depth+1, seen, out)
-							}
-						}
-						continue
-					}
-					c14Origins(l, depth+1, map[ssa.Value]bool{}, out)
-				}
-			}
+		if c14OriginsOfCall(tb, x, 0, 1, depth, seen, out) {
+			return
+		}
+	case *ssa.Extract:
+		// one result of a call returning several candidates (a candidate-selection helper)
+		if call, ok := x.Tuple.(*ssa.Call); ok && c14OriginsOfCall(tb, call, x.Index, call.Type().(*types.Tuple).Len(), depth, seen, out) {
 			return
 		}
 	}
 	out["other:"+core.Describe(v)]++
+}
+
+// c14OriginsOfCall classifies result idx (of n) of a call: every function the call may
+// invoke — its static callee, or, for a call of a function value, the members of the
+// constant table(s) and the function constants the value is taken from — is looked
+// into (module functions only, bounded depth); parameters are followed to the arguments.
+func c14OriginsOfCall(tb *c14Tables, x *ssa.Call, idx, n, depth int, seen map[ssa.Value]bool, out map[string]int) bool {
+	if depth >= 3 {
+		return false
+	}
+	callees, ok := tb.callees(x)
+	if !ok {
+		return false
+	}
+	for _, callee := range callees {
+		if callee.Blocks == nil || callee.Pkg == nil || !strings.HasPrefix(callee.Pkg.Pkg.Path(), core.Mod+"/") {
+			return false
+		}
+	}
+	for _, callee := range callees {
+		for _, ret := range core.Returns(callee) {
+			if len(ret.Results) != n {
+				out["other:"+core.Describe(x)]++
+				continue
+			}
+			for _, l := range gxPhiLeaves(core.Result(ret, idx)) {
+				if pa, ok := l.(*ssa.Parameter); ok {
+					for i, cp := range callee.Params {
+						if cp == pa && i < len(x.Call.Args) {
+							c14Origins(tb, x.Call.Args[i], depth+1, seen, out)
+						}
+					}
+					continue
+				}
+				c14Origins(tb, l, depth+1, map[ssa.Value]bool{}, out)
+			}
+		}
+	}
+	return true
 }
 
 func c14(r *core.Run) {
@@ -162,6 +189,7 @@ func c14(r *core.Run) {
 
 	pick := p.Func(p2cPkg, "p2cPicker", "Pick")
 	build := p.Func(p2cPkg, "p2cPickerBuilder", "Build")
+	tb := newC14Tables() // constant package-level tables (of codes, of candidate-selection functions)
 
 	// role: the done-callback is the closure stored into PickResult.Done by Pick
 	var done *ssa.Function
@@ -328,6 +356,25 @@ func c14(r *core.Run) {
 			return
 		}
 		r.Fn(core.FuncName(f))
+		unacceptable := map[int64]string{4: "DeadlineExceeded", 13: "Internal", 14: "Unavailable", 15: "DataLoss", 12: "Unimplemented"}
+		// preferred: EVALUATE the classifier on every gRPC status code (0..16), on codes outside that
+		// range and on the nil error — whatever it is written as (switch, if-chain, lookup in a
+		// never-written set/table, helper). Only when it cannot be evaluated, decide it edge by edge.
+		if got, ok := c14AcceptableTable(tb, f); ok {
+			o.Site(len(got), core.FuncName(f))
+			for _, g := range got {
+				name, bad := unacceptable[g.code]
+				switch {
+				case bad && g.res:
+					o.Fail(p.Pos(f.Pos()), "Acceptable(%s) = true, expected false (a backend failing with it keeps a healthy score)", name)
+				case !bad && !g.res && g.errNil:
+					o.Fail(p.Pos(f.Pos()), "Acceptable(nil) = false, expected true")
+				case !bad && !g.res:
+					o.Fail(p.Pos(f.Pos()), "Acceptable(code %d) = false, expected true", g.code)
+				}
+			}
+			return
+		}
 		isTag := func(v ssa.Value) bool {
 			c, ok := core.Strip(core.Forward(v)).(*ssa.Call)
 			return ok && core.CalleeName(c) == "google.golang.org/grpc/status.Code" && core.IsParam(f.Params[0].Name())(c.Call.Args[0])
@@ -346,7 +393,6 @@ func c14(r *core.Run) {
 			sort.Strings(ks)
 			return strings.Join(ks, "|")
 		}
-		unacceptable := map[int64]string{4: "DeadlineExceeded", 13: "Internal", 14: "Unavailable", 15: "DataLoss", 12: "Unimplemented"}
 		var all []core.Edge
 		explicit := 0
 		for k := int64(0); k <= 16; k++ {
@@ -409,7 +455,38 @@ func c14(r *core.Run) {
 			if len(ret.Results) != 2 {
 				continue
 			}
-			if core.IsNil(core.Result(ret, 1)) {
+			if cell := c14ErrCell(ret, 1); cell != nil {
+				// The error is a result variable assigned on the way (named results; what is left of
+				// `p.withLock(func() { …; result, err = …; return; … })` once helper and literal are
+				// inlined): the outcome of a path is decided by the assignments it passes, not by the
+				// return it ends in. A path that passes a store of a non-nil error fails; one that
+				// passes none returns the zero value, nil.
+				isFailSt := func(in ssa.Instruction) bool {
+					for _, st := range cell.failing {
+						if in == ssa.Instruction(st) {
+							return true
+						}
+					}
+					return false
+				}
+				for _, st := range cell.clearing {
+					if _, ok := core.Reach(core.Q{From: afterAll(cell.failing), Target: core.Is(st)}); ok {
+						o.Unres("the error result of Pick is reset to nil after a failure was assigned (%s)", p.InstrPos(st))
+					}
+				}
+				if _, ok := core.Reach(core.Q{From: []core.At{core.Entry(pick)}, Target: core.Is(ret), Blocked: isFailSt}); ok {
+					nOK++
+					if _, ok := core.Reach(core.Q{From: []core.At{core.Entry(pick)}, Target: core.Is(ret), Blocked: core.Or(isInc, isFailSt)}); ok {
+						o.Fail(p.InstrPos(ret), "a successful return of Pick is reachable without incrementing inflight")
+					}
+				}
+				if w, ok := core.Reach(core.Q{From: afterAll(incs), Target: isFailSt}); ok {
+					o.Fail(p.InstrPos(w), "Pick fails after having incremented inflight (no callback will decrement it)")
+				}
+				if w, ok := core.Reach(core.Q{From: afterAll(cell.failing), Target: isInc}); ok {
+					o.Fail(p.InstrPos(w), "Pick increments inflight on a path on which it has already decided to fail (no callback will decrement it)")
+				}
+			} else if core.IsNil(core.Result(ret, 1)) {
 				nOK++
 				if _, ok := core.Reach(core.Q{From: []core.At{core.Entry(pick)}, Target: core.Is(ret), Blocked: isInc}); ok {
 					o.Fail(p.InstrPos(ret), "a successful return of Pick is reachable without incrementing inflight")
@@ -484,6 +561,14 @@ func c14(r *core.Run) {
 			{Type: "p2cPicker", Field: "conns", Lock: "lock"},
 			{Type: "p2cPicker", Field: "r", Lock: "lock"},
 		}, nil, nil)
+		// a function that is only called, or only held in a never-written table of function values whose
+		// elements are only called (candidate selectors indexed by the number of connections), runs with
+		// the locks held at all those call sites
+		for i := range acc {
+			if !acc[i].OK && c14HeldThroughTables(tb, p, la, p2cPkg, acc[i]) {
+				acc[i].OK = true
+			}
+		}
 		core.ReportAccesses(o, p, acc)
 		gxReportImbalance(o, p, la)
 	})
@@ -497,7 +582,7 @@ func c14(r *core.Run) {
 			return
 		}
 		out := map[string]int{}
-		c14Origins(gxFieldBase(incs[0].Common().Args[0]), 0, map[ssa.Value]bool{}, out)
+		c14Origins(tb, gxFieldBase(incs[0].Common().Args[0]), 0, map[ssa.Value]bool{}, out)
 		o.Site(out["elem"], core.FuncName(pick))
 		for k := range out {
 			if k != "elem" && k != "nil" {
@@ -565,69 +650,141 @@ func c14(r *core.Run) {
 			}
 			return false
 		}
-		hs := core.Calls(pick, isHealthy)
-		o.Site(len(hs), core.FuncName(pick))
-		if len(hs) < 2 {
-			o.Fail(p.Pos(pick.Pos()), "Pick tests the health of %d candidate(s), expected both", len(hs))
-			return
-		}
-		// the selection that follows the loop
-		var after []ssa.Instruction
-		for _, in := range core.Instrs(pick, func(in ssa.Instruction) bool {
+		isSelection := func(in ssa.Instruction) bool {
 			c, ok := in.(*ssa.Call)
 			return ok && c.Call.StaticCallee() != nil && c.Call.StaticCallee().Pkg == pick.Pkg && !isHealthy(in) &&
 				strings.HasSuffix(c.Type().String(), "p2c.subConn")
-		}) {
-			if _, ok := core.Reach(core.Q{From: afterAll(hs), Target: core.Is(in)}); ok {
-				after = append(after, in)
-			}
 		}
-		if len(after) == 0 {
-			o.Fail(p.Pos(pick.Pos()), "no selection call follows the health tests")
-			return
+		// role: the retry loop lives in Pick, or — one level down — in a candidate-selection function Pick
+		// calls directly or through a never-written table of function values (the only tester among the
+		// callees: the selectors for one and two connections have nothing to test)
+		type tester struct {
+			fn  *ssa.Function
+			via ssa.CallInstruction // the call in Pick that (possibly) runs fn; nil for Pick itself
 		}
-		// "tries used up": the edge leaving the loop at a test of the loop counter (a φ) against a constant,
-		// whichever way the counter runs and the comparison is spelled
-		var exhausted []core.Edge
-		for _, b := range pick.Blocks {
-			iff, ok := b.Instrs[len(b.Instrs)-1].(*ssa.If)
-			if !ok {
-				continue
-			}
-			cmp, ok := iff.Cond.(*ssa.BinOp)
-			if !ok {
-				continue
-			}
-			_, xPhi := cmp.X.(*ssa.Phi)
-			_, yPhi := cmp.Y.(*ssa.Phi)
-			_, xC := core.ConstInt(cmp.X)
-			_, yC := core.ConstInt(cmp.Y)
-			if !(xPhi && yC) && !(yPhi && xC) {
-				continue
-			}
-			for _, s := range b.Succs {
-				if _, back := core.Reach(core.Q{From: []core.At{core.Head(s)}, Target: core.Is(iff)}); !back {
-					exhausted = append(exhausted, core.Edge{From: b, To: s})
+		var testers []tester
+		if len(core.Calls(pick, isHealthy)) > 0 {
+			testers = append(testers, tester{pick, nil})
+		} else {
+			for _, c := range core.Calls(pick, func(in ssa.Instruction) bool { _, ok := in.(*ssa.Call); return ok && !isHealthy(in) }) {
+				fns, _ := tb.callees(c)
+				for _, f := range fns {
+					isH := false
+					for _, h := range healthy {
+						isH = isH || h == f
+					}
+					if !isH && f.Pkg == pick.Pkg && f.Blocks != nil && len(core.Calls(f, isHealthy)) > 0 {
+						testers = append(testers, tester{f, c})
+					}
 				}
 			}
 		}
-		recv := map[ssa.Value]bool{}
-		for _, h := range hs {
-			h := h
-			recv[core.Forward(h.Common().Args[0])] = true
-			healthyEdges, _ := core.EdgesOf(pick, core.BoolVal(func(v ssa.Value) bool { return v == h.Value() }))
-			if w, _ := core.Reach(core.Q{From: []core.At{core.Entry(pick)}, Target: core.Is(after...), Cut: core.CutSet(exhausted, healthyEdges)}); w != nil {
-				o.Fail(p.InstrPos(h), "the retry loop can be left before the tries are used up although this candidate is unhealthy")
+		if len(testers) == 0 {
+			o.Site(0, core.FuncName(pick))
+			o.Fail(p.Pos(pick.Pos()), "Pick tests the health of 0 candidate(s), expected both")
+			return
+		}
+		for _, t := range testers {
+			fn := t.fn
+			r.Fn(core.FuncName(fn))
+			hs := core.Calls(fn, isHealthy)
+			o.Site(len(hs), core.FuncName(fn))
+			if len(hs) < 2 {
+				o.Fail(p.Pos(fn.Pos()), "Pick tests the health of %d candidate(s), expected both", len(hs))
+				continue
 			}
-		}
-		if len(recv) < 2 {
-			o.Fail(p.Pos(pick.Pos()), "both health tests look at the same candidate")
-		}
-		for _, a := range after {
-			for _, arg := range core.Args(a.(ssa.CallInstruction))[1:] {
-				for _, l := range gxPhiLeaves(arg) {
-					if _, isC := l.(*ssa.Const); !isC && !recv[core.Forward(l)] {
-						o.Fail(p.InstrPos(a), "candidate %s is selected from without having been health-tested", core.Describe(l))
+			// what follows the loop: the selection call (loop in Pick), or handing the candidates back to Pick,
+			// which then must go on to a selection call
+			var after []ssa.Instruction
+			var cands [][]ssa.Value // the candidates handed on at after[i]
+			if t.via == nil {
+				for _, in := range core.Instrs(fn, isSelection) {
+					if _, ok := core.Reach(core.Q{From: afterAll(hs), Target: core.Is(in)}); ok {
+						after = append(after, in)
+						cands = append(cands, core.Args(in.(ssa.CallInstruction))[1:])
+					}
+				}
+			} else {
+				// … and Pick selects from what the call handed back (or from constants), nothing else
+				viaVal, _ := t.via.(ssa.Value)
+				sels := 0
+				for _, in := range core.Instrs(pick, isSelection) {
+					if _, ok := core.Reach(core.Q{From: []core.At{core.After(t.via)}, Target: core.Is(in)}); !ok {
+						continue
+					}
+					sels++
+					for _, arg := range core.Args(in.(ssa.CallInstruction))[1:] {
+						for _, l := range gxPhiLeaves(arg) {
+							l = core.Forward(l)
+							if ex, isEx := l.(*ssa.Extract); isEx {
+								l = ex.Tuple
+							}
+							if _, isC := l.(*ssa.Const); !isC && (viaVal == nil || l != viaVal) {
+								o.Fail(p.InstrPos(in), "candidate %s is selected from without having been health-tested", core.Describe(l))
+							}
+						}
+					}
+				}
+				if sels > 0 {
+					for _, ret := range core.Returns(fn) {
+						if _, ok := core.Reach(core.Q{From: afterAll(hs), Target: core.Is(ret)}); ok {
+							after = append(after, ret)
+							var rs []ssa.Value
+							for i := range ret.Results {
+								rs = append(rs, core.Result(ret, i))
+							}
+							cands = append(cands, rs)
+						}
+					}
+				}
+			}
+			if len(after) == 0 {
+				o.Fail(p.Pos(fn.Pos()), "no selection call follows the health tests")
+				continue
+			}
+			// "tries used up": the edge leaving the loop at a test of the loop counter (a φ) against a constant,
+			// whichever way the counter runs and the comparison is spelled
+			var exhausted []core.Edge
+			for _, b := range fn.Blocks {
+				iff, ok := b.Instrs[len(b.Instrs)-1].(*ssa.If)
+				if !ok {
+					continue
+				}
+				cmp, ok := iff.Cond.(*ssa.BinOp)
+				if !ok {
+					continue
+				}
+				_, xPhi := cmp.X.(*ssa.Phi)
+				_, yPhi := cmp.Y.(*ssa.Phi)
+				_, xC := core.ConstInt(cmp.X)
+				_, yC := core.ConstInt(cmp.Y)
+				if !(xPhi && yC) && !(yPhi && xC) {
+					continue
+				}
+				for _, s := range b.Succs {
+					if _, back := core.Reach(core.Q{From: []core.At{core.Head(s)}, Target: core.Is(iff)}); !back {
+						exhausted = append(exhausted, core.Edge{From: b, To: s})
+					}
+				}
+			}
+			recv := map[ssa.Value]bool{}
+			for _, h := range hs {
+				h := h
+				recv[core.Forward(h.Common().Args[0])] = true
+				healthyEdges, _ := core.EdgesOf(fn, core.BoolVal(func(v ssa.Value) bool { return v == h.Value() }))
+				if w, _ := core.Reach(core.Q{From: []core.At{core.Entry(fn)}, Target: core.Is(after...), Cut: core.CutSet(exhausted, healthyEdges)}); w != nil {
+					o.Fail(p.InstrPos(h), "the retry loop can be left before the tries are used up although this candidate is unhealthy")
+				}
+			}
+			if len(recv) < 2 {
+				o.Fail(p.Pos(fn.Pos()), "both health tests look at the same candidate")
+			}
+			for i, a := range after {
+				for _, arg := range cands[i] {
+					for _, l := range gxPhiLeaves(arg) {
+						if _, isC := l.(*ssa.Const); !isC && !recv[core.Forward(l)] {
+							o.Fail(p.InstrPos(a), "candidate %s is selected from without having been health-tested", core.Describe(l))
+						}
 					}
 				}
 			}
